@@ -1,6 +1,10 @@
 package common
 
-import "fmt"
+import (
+	"sync/atomic"
+	"time"
+)
+
 
 // Overlap enumerates EVERY interleaving of a few calls into the library that overlap in time, at
 // the granularity of the environment calls they make (reads and writes on caller-supplied
@@ -16,17 +20,35 @@ import "fmt"
 // Stateless depth-first search over choice sequences: an execution replays a prefix, then always
 // continues the running body (choice 0); alternatives are explored while the number of
 // switches away from a body that could have continued stays <= bound (bound < 0: no bound).
+// OverlapDiverged counts executions that could not follow their recorded prefix (see overlapRun).
+var OverlapDiverged int64
+
 type OverlapExec struct {
-	Schedule []int // body index chosen at every point
-	Panics   []any
+	Schedule     []int // body index chosen at every point
+	Panics       []any
+	Uncontrolled bool // a body blocked inside the library; the rest of the execution ran freely
 }
 
+// OverlapBlocked counts executions in which the body that was given the baton neither reached its
+// next environment call nor finished within OverlapBlockTimeout: it waits inside the library for
+// something (a lock) that a body parked at an environment call holds. Real overlapping calls would
+// simply wait for each other; the one-at-a-time discipline cannot run that, so all bodies are let
+// go (environment calls no longer park), the execution finishes uncontrolled and is NOT judged,
+// and the enumeration of this family is reported as incomplete — never as a violation.
+var OverlapBlocked int64
+var OverlapBlockTimeout = 5 * time.Second
+
 func Overlap(bound int, mk func() (bodies []func(y func()), check func(x *OverlapExec))) (execs int) {
+	if atomic.LoadInt64(&OverlapBlocked) >= 3 {
+		return 0 // the coroutine discipline does not fit this library (see overlapRun): family abandoned
+	}
 	var explore func(prefix []int)
 	explore = func(prefix []int) {
 		x, pts := overlapRun(prefix, mk)
 		execs++
-		_ = x
+		if x.Uncontrolled {
+			return
+		}
 		for i := len(prefix); i < len(pts); i++ {
 			p := pts[i]
 			cost := 0
@@ -74,6 +96,7 @@ func overlapRun(prefix []int, mk func() ([]func(y func()), func(x *OverlapExec))
 	events := make(chan ev)
 	x := &OverlapExec{Panics: make([]any, n)}
 	finished := make([]bool, n)
+	var free int32
 	for i := range bodies {
 		resume[i] = make(chan struct{})
 		go func(i int) {
@@ -85,6 +108,9 @@ func overlapRun(prefix []int, mk func() ([]func(y func()), func(x *OverlapExec))
 				events <- ev{i, true}
 			}()
 			bodies[i](func() {
+				if atomic.LoadInt32(&free) != 0 {
+					return
+				}
 				events <- ev{i, false}
 				<-resume[i]
 			})
@@ -110,7 +136,14 @@ func overlapRun(prefix []int, mk func() ([]func(y func()), func(x *OverlapExec))
 		if k < len(prefix) {
 			p.choice = prefix[k]
 			if p.choice >= len(en) {
-				panic(fmt.Sprintf("overlap: replay diverged at point %d (choice %d of %d)", k, p.choice, len(en)))
+				// The bodies are deterministic functions of the schedule as long as the library keeps
+				// nothing between executions. A library that does (a pool refilled every n-th call, a
+				// cache) makes a later execution take other environment calls than the one the prefix
+				// was recorded from: the execution is then continued without the prefix (its checks
+				// still run), and the caller reports the enumeration as incomplete.
+				OverlapDiverged++
+				p.choice = 0
+				prefix = prefix[:k]
 			}
 		}
 		p.preempt = p.runningEnabled && p.choice != 0
@@ -118,7 +151,31 @@ func overlapRun(prefix []int, mk func() ([]func(y func()), func(x *OverlapExec))
 		running = en[p.choice]
 		x.Schedule = append(x.Schedule, running)
 		resume[running] <- struct{}{}
-		e := <-events
+		var e ev
+		select {
+		case e = <-events:
+		case <-time.After(OverlapBlockTimeout):
+			atomic.AddInt64(&OverlapBlocked, 1)
+			x.Uncontrolled = true
+			atomic.StoreInt32(&free, 1)
+			for i := 0; i < n; i++ {
+				if !finished[i] && i != running {
+					resume[i] <- struct{}{} // parked at its start or at an environment call
+				}
+			}
+			for left > 0 {
+				e = <-events
+				if e.done {
+					finished[e.id] = true
+					left--
+				} else {
+					resume[e.id] <- struct{}{} // had passed the flag test before it was set
+				}
+			}
+			// no check: the bodies ran concurrently for a while and the harness's scripted
+			// environment is not built for that — this execution is not judged at all
+			return x, pts
+		}
 		if e.done {
 			finished[e.id] = true
 			left--
